@@ -7,8 +7,11 @@ Anchors: `protocols/gossipsub/src/config.rs` (`ConfigBuilder` setters, `ConfigBu
 
 * `Builder` = the fields of `ConfigBuilder` that `build` reads; topics are small naturals.
   `HashMap`s are association lists with unique keys (insert replaces).
-* `build` transcribes the REPAIRED `ConfigBuilder::build` (finding `C34-build-validates-only-sized-topics`);
-  `buildBuggy` is the pre-fix function (only topics with a `max_transmit_size` entry are validated).
+* `build` transcribes `ConfigBuilder::build` AS IT IS: all size/mesh checks sit inside
+  `for topic in max_transmit_sizes.keys()`, so only topics with a `max_transmit_size` entry are
+  validated (known finding `C34-build-validates-only-sized-topics`, recorded, not repaired).  The
+  `HashMap` iteration order decides which failing topic reports its error: an oracle (the observed
+  error kind), validated by the model.
 * `hbTopic` transcribes one iteration of the `for (topic_hash, peers) in self.mesh.iter_mut()` loop of
   `heartbeat` on the level of *counts*: the mesh is (inbound, outbound) peers with score ≥ 0 plus
   peers with score < 0; `get_random_peers(.., n, f)` returns exactly `min n |eligible|` peers, the
@@ -119,39 +122,45 @@ def Err.name : Err → String
 /-- `mesh_outbound_min <= mesh_n_low && mesh_n_low <= mesh_n && mesh_n <= mesh_n_high` -/
 def Params.ordered (p : Params) : Bool := p.outMin ≤ p.low && p.low ≤ p.n && p.n ≤ p.high
 
-/-- the parameter sets the repaired `build` walks: `once(default).chain(topic_mesh_params.values())` -/
-def Builder.paramSets (b : Builder) : List Params := b.dflt :: b.topics.map (·.2)
-
-/-- the tail of `build` shared by both variants -/
+/-- the tail of `build`: the checks outside the loop -/
 def buildTail (b : Builder) : Except Err Config :=
   if b.histLen < b.histGossip then .error .HistoryLengthTooSmall
   else if b.ubMillis = 0 then .error .UnsubscribeBackoffIsZero
   else if b.invalidProtocol then .error .InvalidProtocol
   else .ok b
 
-/-- the REPAIRED `ConfigBuilder::build` -/
-def build (b : Builder) : Except Err Config :=
-  if b.mts < 100 || b.mtsT.any (fun e => e.2 < 100) then .error .MaxTransmissionSizeTooSmall
-  else if b.paramSets.any (fun p => !p.ordered) then .error .MeshParametersInvalid
-  else if b.paramSets.any (fun p => p.outMin > p.n / 2) then .error .MeshOutboundInvalid
-  else buildTail b
+/-- the body of `for topic in self.config.protocol.max_transmit_sizes.keys()` for one topic:
+the error it returns, if any -/
+def topicErr (b : Builder) (t : Nat) : Option Err :=
+  if b.mtsFor t < 100 then some .MaxTransmissionSizeTooSmall
+  else
+    let p := b.paramsFor t
+    if !p.ordered then some .MeshParametersInvalid
+    else if p.outMin * 2 > p.n then some .MeshOutboundInvalid
+    else none
 
-/-- the pre-fix loop `for topic in max_transmit_sizes.keys()` -/
-def buggyLoop (b : Builder) : List (Nat × Nat) → Option Err
-  | [] => none
-  | (t, _) :: r =>
-    if b.mtsFor t < 100 then some .MaxTransmissionSizeTooSmall
-    else
-      let p := b.paramsFor t
-      if !p.ordered then some .MeshParametersInvalid
-      else if p.outMin * 2 > p.n then some .MeshOutboundInvalid
-      else buggyLoop b r
+/-- the errors the loop can return: one per failing pre-configured topic (which one is returned
+depends on the iteration order of the `HashMap`) -/
+def loopErrs (b : Builder) : List Err := b.mtsT.filterMap (fun e => topicErr b e.1)
 
-/-- the pre-fix `ConfigBuilder::build` -/
-def buildBuggy (b : Builder) : Except Err Config :=
-  match buggyLoop b b.mtsT with
-  | some e => .error e
-  | none => buildTail b
+inductive BuildRes where
+  | ok (c : Config)
+  | err (e : Err)
+  | badOracle
+deriving Repr, DecidableEq
+
+/-- `ConfigBuilder::build`; `choice` = the error kind the real code reported (only consulted when a
+pre-configured topic fails; it must be the error of one of the failing topics) -/
+def build (b : Builder) (choice : Option Err) : BuildRes :=
+  match loopErrs b with
+  | [] =>
+    match buildTail b with
+    | .ok c => .ok c
+    | .error e => .err e
+  | errs =>
+    match choice with
+    | some e => if errs.contains e then .err e else .badOracle
+    | none => .badOracle
 
 /-- one parameter set satisfies the property's inequalities -/
 def Params.valid (p : Params) : Prop :=
@@ -331,6 +340,59 @@ def Builder.getters (b : Builder) (alphabet : List Nat) : Getters :=
 def specBuild (g : Getters) : Bool :=
   decide g.dflt.valid && g.perTopic.all (fun p => decide p.valid) &&
   decide (g.histGossip ≤ g.histLen) && decide (100 ≤ g.mts) && g.mtsPerTopic.all (fun s => decide (100 ≤ s))
+
+/-- how an accepted config (getters `g`, read off the implementation) relates to the property -/
+inductive Class where
+  | valid
+  | known (key : String)   -- invalid only in the ways of the recorded finding
+  | other (key : String)   -- invalid in any other way
+deriving Repr, DecidableEq
+
+def zip3 (ts : List Nat) (ps : List Params) (ms : List Nat) : List (Nat × Params × Nat) :=
+  match ts, ps, ms with
+  | t :: ts, p :: ps, m :: ms => (t, p, m) :: zip3 ts ps ms
+  | _, _, _ => []
+
+/-- Classification of an ACCEPTED config.  `b` (the builder state reconstructed from the op's setter
+list) is only used to know which topics have a `max_transmit_size` entry / an own parameter entry;
+validity is judged on the implementation's getters.  Reasons outside the recorded finding take
+precedence, so a known reason never masks another defect:
+* `…:history` — `history_gossip > history_length` accepted;
+* `…:sized_topic` — a topic WITH a `max_transmit_size` entry accepted with a size < 100 or an
+  invalid parameter set (the loop does check these);
+* known: `…:default_mesh_params` (default parameter set invalid), `…:default_transmit_size`
+  (default size < 100), `…:topic_without_size_entry` (an own per-topic parameter set is invalid and
+  the topic has no `max_transmit_size` entry). -/
+def classify (b : Builder) (alphabet : List Nat) (g : Getters) : Class :=
+  if specBuild g then .valid
+  else
+    let rows := zip3 alphabet g.perTopic g.mtsPerTopic
+    let sized := fun (t : Nat) => (lookup b.mtsT t).isSome
+    let own := fun (t : Nat) => (lookup b.topics t).isSome
+    if g.histLen < g.histGossip then .other "build_accepts_invalid:history"
+    else if rows.any (fun r => sized r.1 && (decide (r.2.2 < 100) || !decide r.2.1.valid)) then
+      .other "build_accepts_invalid:sized_topic"
+    else if !decide g.dflt.valid then .known "build_accepts_invalid:default_mesh_params"
+    else if g.mts < 100 then .known "build_accepts_invalid:default_transmit_size"
+    else if rows.any (fun r => own r.1 && !sized r.1 && !decide r.2.1.valid) then
+      .known "build_accepts_invalid:topic_without_size_entry"
+    else .other "build_accepts_invalid:unclassified"
+
+def Class.verdict : Class → String
+  | .valid => "ok"
+  | .known k => "FAIL:" ++ k
+  | .other k => "FAIL:" ++ k
+
+/-- Spec of a heartbeat on a behaviour built from an accepted config: no panic.  The failure key
+says whether the accepted config was valid (a new defect), invalid exactly as in the recorded
+finding, or invalid otherwise. -/
+def specHbKey (accepted : Option Class) (panicked : Bool) : String :=
+  if !panicked then "ok"
+  else match accepted with
+    | none => "ok"                                   -- config was not returned by `build`
+    | some .valid => "FAIL:heartbeat_panic"
+    | some (.known _) => "FAIL:heartbeat_panic:accepted_invalid_config"
+    | some (.other _) => "FAIL:heartbeat_panic:other_invalid_config"
 
 /-- Spec of a heartbeat on a behaviour built from an accepted config: no panic -/
 def specHb {α : Type} (accepted : Bool) (r : Res α) : Bool := !(accepted && r.isPanic)
